@@ -420,11 +420,14 @@ ares_status_t ares_reinit(ares_channel_t *channel)
     return ARES_SUCCESS;
   }
   channel->reinit_pending = ARES_TRUE;
-  ares_channel_unlock(channel);
 
   if (ares_threadsafety()) {
-    /* clean up the prior reinit process's thread.  We know the thread isn't
-     * running since reinit_pending was false */
+    /* Keep holding the channel lock while touching channel->reinit_thread, so
+     * concurrent callers (and ares_destroy()) never see it half-updated.
+     *
+     * clean up the prior reinit process's thread.  We know the thread isn't
+     * running since reinit_pending was false: it cleared the flag under the
+     * lock we now hold, so all it has left to do is return. */
     if (channel->reinit_thread != NULL) {
       void *rv;
       ares_thread_join(channel->reinit_thread, &rv);
@@ -436,12 +439,12 @@ ares_status_t ares_reinit(ares_channel_t *channel)
       ares_thread_create(&channel->reinit_thread, ares_reinit_thread, channel);
     if (status != ARES_SUCCESS) {
       /* LCOV_EXCL_START: UntestablePath */
-      ares_channel_lock(channel);
       channel->reinit_pending = ARES_FALSE;
-      ares_channel_unlock(channel);
       /* LCOV_EXCL_STOP */
     }
+    ares_channel_unlock(channel);
   } else {
+    ares_channel_unlock(channel);
     /* Threading support not available, call directly */
     ares_reinit_thread(channel);
   }
